@@ -116,13 +116,14 @@ impl SimWriter {
     self.kit.writer.update_reader_proxy(&rp, &q);
   }
   pub fn repair_enabled_guid(&self, g: GUID) -> (bool, bool) {
-    self.kit.writer.verif_repair_enabled().into_iter().find(|x| x.0 == g).map(|x| (x.1, x.2)).unwrap_or((false, false))
+    let armed = self.kit.writer.verif_armed();
+    (armed.iter().any(|x| x.0 == "repair" && x.1 == Some(g)), armed.iter().any(|x| x.0 == "repair_frags" && x.1 == Some(g)))
   }
   pub fn repair_guid(&mut self, g: GUID) {
-    self.kit.writer.verif_repair_data(g);
+    self.kit.writer.verif_fire("repair", Some(g));
   }
   pub fn repair_frags_guid(&mut self, g: GUID) {
-    self.kit.writer.verif_repair_frags(g);
+    self.kit.writer.verif_fire("repair_frags", Some(g));
   }
   pub fn acked_before_guid(&self, g: GUID) -> Option<i64> {
     self.kit.writer.verif_acked_before(g)
@@ -200,28 +201,39 @@ impl SimWriter {
   pub fn process_commands(&mut self) {
     self.kit.writer.process_writer_command();
   }
+  /// the periodic HEARTBEAT timer expires (real `handle_timed_event`, which re-arms it)
   pub fn hb_tick(&mut self) {
-    self.kit.writer.handle_heartbeat_tick(false);
+    if !self.kit.writer.verif_fire("heartbeat", None) {
+      // no periodic heartbeat armed for this QoS: the manual tick
+      self.kit.writer.handle_heartbeat_tick(false);
+    }
   }
   /// (reader idx, repair_mode, repair_frags_requested)
+  /// per reader: is a SendRepairData / SendRepairFrags timer armed (the Writer armed it itself, at its real
+  /// arming sites; which armed timer expires when is the explorer's choice)
   pub fn repair_enabled(&self) -> Vec<(u8, bool, bool)> {
-    self
-      .kit
-      .writer
-      .verif_repair_enabled()
-      .into_iter()
-      .filter_map(|(g, a, b)| (0..8u8).find(|r| rguid(*r) == g).map(|r| (r, a, b)))
+    let armed = self.kit.writer.verif_armed();
+    (0..8u8)
+      .filter_map(|r| {
+        let g = rguid(r);
+        let a = armed.iter().any(|x| x.0 == "repair" && x.1 == Some(g));
+        let b = armed.iter().any(|x| x.0 == "repair_frags" && x.1 == Some(g));
+        (a || b).then_some((r, a, b))
+      })
       .collect()
   }
-  /// what `handle_timed_event` does for SendRepairData (without the re-arm, which is modelled by `repair_enabled`)
+  /// the SendRepairData timer of reader r expires: the real `handle_timed_event` runs (send, maybe re-arm)
   pub fn repair(&mut self, r: u8) {
-    self.kit.writer.verif_repair_data(rguid(r));
+    self.kit.writer.verif_fire("repair", Some(rguid(r)));
   }
   pub fn repair_frags(&mut self, r: u8) {
-    self.kit.writer.verif_repair_frags(rguid(r));
+    self.kit.writer.verif_fire("repair_frags", Some(rguid(r)));
   }
+  /// the CacheCleaning timer expires
   pub fn clean(&mut self) {
-    self.kit.writer.verif_clean();
+    if !self.kit.writer.verif_fire("clean", None) {
+      self.kit.writer.verif_clean();
+    }
   }
   pub fn history(&self) -> Vec<i64> {
     self.kit.writer.verif_history_sns()
